@@ -21,7 +21,8 @@ ASSUMPTIONS = ['a layer tearDown failure between layers is not a "test '
                'injected here']
 FLOORS = {'stop_points_judged': 400, 'scheduled_after': 300,
           'repeat_cases': 80, 'layer_setup_fail_cases': 30, 'child_cases': 30,
-          'shuffle_cases': 50}
+          'shuffle_cases': 50,
+          'stop_points_inside_a_class_run_as_a_unit': 40}
 BATCH_TIMEOUT = 400
 
 
@@ -63,7 +64,25 @@ def run_case(case):
         gen.add_unit_nodes(rng, spec, n=(1, 1), fixtures=[
             {'setUpClass': 'raise:ValueError'},
             {'tearDownClass': 'raise:KeyError'}])
-    elif r0 < 0.24:
+    elif r0 < 0.26:
+        # a class that is run as a unit (its tests go through a stdlib suite
+        # with the runner's result object) and one of its tests - not the
+        # last - goes wrong: the tests behind it must not start either
+        what = 'unit_inner'
+        node = gen.add_unit_nodes(rng, spec, n=(1, 1), kinds=('pass',),
+                                  fixtures=[{'setUpClass': 'ok',
+                                             'tearDownClass': 'ok'}])[0]
+        nt = rng.randint(3, 5)
+        node['tests'] = [{'name': 'test_u%d' % j, 'kind': 'pass'}
+                         for j in range(nt)]
+        b = rng.randrange(nt - 1)
+        node['tests'][b]['kind'] = rng.choice(
+            ['fail', 'error', 'teardown_error', 'setup_error', 'uxsuccess',
+             'cleanup_error'])
+        umod = next(m['name'] for m in spec['modules']
+                    if node in m['suite'].get('ch', []))
+        unit_bad = '%s.%s.test_u%d' % (umod, node['name'], b)
+    elif r0 < 0.36:
         what = 'layer'
         ln = rng.choice(lnames)
         plan = {'layers': {ln: {'setUp': 'raise:' + rng.choice(
@@ -124,6 +143,8 @@ def run_case(case):
     viol.extend(w.cviol[:2])
     over = plan.get('tests') or {}
     bad_ids = set(over)
+    if what == 'unit_inner':
+        bad_ids.add(unit_bad)
     parent = next((e['pid'] for e in w.events if e['k'] == 'run.enter'), None)
     by_pid = oracles.split_pids(w.events)
     has_children = any(pid != parent and any(
@@ -155,6 +176,8 @@ def run_case(case):
             continue
         judged += 1
         C('stop_points_judged')
+        if what == 'unit_inner' and bad_tid == unit_bad:
+            C('stop_points_inside_a_class_run_as_a_unit')
         later_tests = [e['id'] for e in evs[first + 1:]
                        if e['k'] == 'test.setUp']
         if later_tests:
